@@ -68,6 +68,43 @@ def kernels(ctx):
     return out
 
 
+# ------------------------------------------------------------------ which flag rule does the tree under test implement?
+def flag_rule_in_source():
+    """Reads check_for_loopcarried_dep with ast: where, inside the `while ... else:` branch, is
+    `self.timed_out = True`?  Directly in the branch -> "FlagOnExhaustion" (as shipped); only inside an
+    `if <x>.is_alive():` of the kill loop -> "FlagOnKill" (repaired).  Anything else -> None (fail closed)."""
+    import ast
+    src = open(os.path.join(vlib.REPO, "osaca", "semantics", "kernel_dg.py")).read()
+    fns = [n for n in ast.walk(ast.parse(src)) if isinstance(n, ast.FunctionDef) and n.name == "check_for_loopcarried_dep"]
+    if len(fns) != 1:
+        return None
+
+    def sets_flag(n):
+        return (isinstance(n, ast.Assign) and len(n.targets) == 1 and isinstance(n.targets[0], ast.Attribute)
+                and n.targets[0].attr == "timed_out" and isinstance(n.targets[0].value, ast.Name) and n.targets[0].value.id == "self"
+                and isinstance(n.value, ast.Constant) and n.value.value is True)
+    all_sets = [n for n in ast.walk(fns[0]) if sets_flag(n)]
+    whiles = [n for n in ast.walk(fns[0]) if isinstance(n, ast.While) and n.orelse]
+    if len(whiles) != 1 or len(all_sets) != 1:
+        return None
+    orelse = whiles[0].orelse
+    if any(sets_flag(n) for n in orelse):
+        return "FlagOnExhaustion"
+    for loop in orelse:
+        if not isinstance(loop, ast.For):
+            continue
+        for st in loop.body:
+            if (isinstance(st, ast.If) and not st.orelse and isinstance(st.test, ast.Call) and isinstance(st.test.func, ast.Attribute)
+                    and st.test.func.attr == "is_alive" and not st.test.args and any(sets_flag(n) for n in st.body)
+                    and any(isinstance(c, ast.Call) and isinstance(c.func, ast.Attribute) and c.func.attr in ("kill", "terminate")
+                            for b in st.body for c in ast.walk(b))):
+                return "FlagOnKill"
+    return None
+
+
+RULE = {"v": "FlagOnExhaustion"}
+
+
 # ------------------------------------------------------------------ poll-loop trace -> model input
 def trace_of(r):
     """From the event log: clock readings (us), per worker the model's finishing instant, expected outcome."""
@@ -112,12 +149,27 @@ def coq_trace_case(r, T_us):
                 fins.append("None")
             else:
                 fins.append("Some %d" % times[tr["first_dead"].get(p, exit_idx)])
-        exp_how = "ExitDeadline" if r["timed_out"] else "ExitAllDone"
+        # which branch was taken is read off the events after the last clock reading, independently of the flag:
+        # `else:` interleaves is_alive / [kill] / join per worker, `break` evaluates any() first and joins afterwards
+        tail = []
+        for e in r["events"]:
+            if e["ev"] == "time":
+                tail = []
+            elif e["ev"] in ("is_alive", "join", "kill"):
+                tail.append(e["ev"])
+        last_alive = max([i for i, x in enumerate(tail) if x == "is_alive"] or [-1])
+        if "kill" in tail or "join" in tail[:last_alive]:
+            deadline = True
+        elif len(tr["pids"]) >= 2:
+            deadline = False
+        else:       # a single worker that is dead: both branches look alike, only the clock tells
+            deadline = times[-1] - times[0] > T_us
+        exp_how = "ExitDeadline" if deadline else "ExitAllDone"
         exp_poll = exit_idx
     ws = "[" + "; ".join("mkworker [] (%s)" % f for f in fins) + "]"
     killed = "[" + "; ".join("true" if p in tr["killed"] else "false" for p in tr["pids"]) + "]"
     alljoined = all(p in tr["joined"] for p in tr["pids"])
-    return ("(let o := run_parallel (%s) 200000 (%d) %s in "
+    return ("(let o := run_parallel " + RULE["v"] + " (%s) 200000 (%d) %s in "
             "how_eqb (how o) %s && Nat.eqb (exit_poll o) %d && Bool.eqb (timed_out o) %s && bl_eqb (killed o) %s && bl_eqb (joined o) (all_true %s) && %s)"
             % (clk, T_us, ws, exp_how, exp_poll, "true" if r["timed_out"] else "false", killed, ws, "true" if alljoined else "false"))
 
@@ -407,6 +459,14 @@ def run(ctx):
                         "overhead bound used by the wall-time oracle: %.1f s + %.1f ms per delivered path" % (OVERHEAD, PER_PATH * 1000)]
     ctx.ensure_static()
     ctx.compile_theorems("Props/C19.v")
+    rule = flag_rule_in_source()
+    ctx.coverage["flag_rule_in_source"] = rule
+    ctx.obligation("the flag rule of the `while ... else:` branch is recognised in the current source (FlagOnExhaustion / FlagOnKill)",
+                   "translation", rule is not None,
+                   "" if rule else "self.timed_out = True is neither the branch's own statement nor inside `if p.is_alive():` of the kill loop")
+    RULE["v"] = rule or "FlagOnExhaustion"
+    ctx.log("flag rule in source: %s (theorems that apply: %s)" % (rule, "flag_iff_some_worker_killed, no_flag_means_complete, "
+            "every_worker_finished_no_flag" if rule == "FlagOnKill" else "flag_iff_loop_exhausted; flag_without_cut_*_refuted are observable"))
     ks = kernels(ctx)
     ctx.coverage["kernels"] = {n: len(s["text"].strip().split("\n")) for n, s in ks.items()}
     full = campaign(ctx, ks)
